@@ -3,7 +3,7 @@ from pyvc.verify import Post, Case, Equiv, NativeFacts
 from contracts import common
 
 PROPERTY = 'C15'
-REF_MODULES = ['ref_reduce', 'ref_extra', 'ref_core']
+REF_MODULES = ['ref_reduce', 'ref_extra', 'ref_core', 'ref_registry', 'ref_auto', 'ref_match']
 CLASSES = ['Fold', 'Sum', 'Count', 'Flatten', 'Merge']
 
 
@@ -63,6 +63,9 @@ def contracts():
                         config=ctor, raise_only=name == 'bogus'))
     cs.append(Equiv('reduction.Sum.__init__', 'ref_reduce.sum_init_ref', args={'self': 'inst:reduction.Sum', 'subspec': 'ref', 'init': 'ref'}, config=ctor))
     cs.append(Equiv('reduction.Count.__init__', 'ref_reduce.count_init_ref', args={'self': 'inst:reduction.Count'}, config=ctor))
+    from contracts import C13 as _c13, C03 as _c03
+    cs += common.shared(_c13, ['core.TargetRegistry.get_handler', 'core.TargetRegistry.get_type_map', 'core.TargetRegistry._get_closest_type'])
+    cs += common.shared(_c03, ['core._has_callable_glomit'])
     return cs
 
 
